@@ -174,6 +174,9 @@ def _exit_condition(rl):
 
 
 def r3_exit(chk, rl):
+    from ..canon import Env, lift_ifexp_calls
+
+    rl = lift_ifexp_calls(rl, {"exit", "sys.exit"})  # exit(1 if failed else rc)  ==  if failed: exit(1) else: exit(rc)
     g = _exit_condition(rl)
     key = f"{rl.key}:success-exit-only-when-everything-succeeded"
     exits = [c for c in walk_no_nested(rl.node) if isinstance(c, ast.Call) and call_name(c) in ("exit", "sys.exit")]
@@ -181,8 +184,9 @@ def r3_exit(chk, rl):
     if g is None:
         chk.fail("C17.R3", key, rl.where(exits[0]), "the exit status is not decided by a test of the failure position and the returned files")
         return
-    t = norm(g.test)
-    cond_ok = isinstance(g.test, ast.BoolOp) and isinstance(g.test.op, ast.Or) and "fail is not None" in t and (
+    gtest = Env(rl.node).expand(g.test, keep={"fail", "retfiles", "job"})  # a named condition (`failed = ...`) dissolves
+    t = norm(gtest)
+    cond_ok = isinstance(gtest, ast.BoolOp) and isinstance(gtest.op, ast.Or) and "fail is not None" in t and (
         "set(retfiles) != set(job.return_files)" in t or "set(job.return_files) != set(retfiles)" in t or "len(retfiles) != len(job.return_files)" in t)
     body_exit = [c for b in g.body for c in ast.walk(b) if isinstance(c, ast.Call) and call_name(c) in ("exit", "sys.exit")]
     else_exit = [c for b in g.orelse for c in ast.walk(b) if isinstance(c, ast.Call) and call_name(c) in ("exit", "sys.exit")]
@@ -206,7 +210,20 @@ def r4_recorded(chk, rl, rule):
         for g in walk_no_nested(rl.node):
             if isinstance(g, ast.If) and any(isinstance(s, ast.Assign) and nm in stored_paths(s) for b in g.body + g.orelse for s in ast.walk(b)):
                 ctl |= names_in(g.test)
-    deps = {t for t in p} | ctl
+    # data dependence through naming locals (`failed = fail is not None or ...`): closure over single-valued locals
+    from ..canon import Env
+
+    env = Env(rl.node)
+    todo, clo = list(names_in(ec) | ctl), set()
+    while todo:
+        nm = todo.pop()
+        if nm in clo:
+            continue
+        clo.add(nm)
+        v = env.single(nm)
+        if v is not None and nm not in ("fail", "retfiles"):
+            todo.extend(names_in(v))
+    deps = {t for t in p} | ctl | clo
     has_fail = "fail" in deps
     has_files = "retfiles" in deps
     key = f"{rl.key}:recorded-exitcode-tells-what-the-exit-status-tells"
